@@ -318,8 +318,6 @@ where
                 return ControlFlow::Break(());
             }
         };
-        self.init_channel(&policy);
-
         if is_leader {
             if !matches!(self.state_kind, PolicyStateKind::Init) {
                 ret_err(
@@ -332,6 +330,7 @@ where
                 return ControlFlow::Continue(self);
             }
             record_span_fields(&self.start_span, &policy.computation_id, policy.party);
+            self.init_channel(&policy);
             let client = self.client_builder.new_client(&policy);
 
             trace!("sending validate to followers");
@@ -402,6 +401,7 @@ where
             match self.state_kind {
                 PolicyStateKind::Init => {
                     record_span_fields(&self.start_span, &policy.computation_id, policy.party);
+                    self.init_channel(&policy);
                     self.state_kind = PolicyStateKind::AwaitingValidation {
                         client,
                         schedule_ret: ret,
@@ -443,6 +443,10 @@ where
                         // TODO also ret_err for schedule ret
                         return ControlFlow::Break(());
                     }
+                    // self.state_kind is partially moved here, so set the fields directly
+                    let (channel_senders, channel_receivers) = new_channels(&policy);
+                    self.channel_senders = channel_senders;
+                    self.channel_receivers = Some(channel_receivers);
                     self.state_kind = PolicyStateKind::Validated {
                         client,
                         policy,
@@ -469,17 +473,24 @@ where
     }
 
     fn init_channel(&mut self, policy: &Policy) {
-        let mut channel_senders = vec![];
-        let mut channel_receivers = vec![];
-        for _ in 0..policy.participants.len() {
-            // TODO buffer size?
-            let (sender, receiver) = mpsc::channel(10);
-            channel_senders.push(sender);
-            channel_receivers.push(tokio::sync::Mutex::new(receiver));
-        }
+        let (channel_senders, channel_receivers) = new_channels(policy);
         self.channel_senders = channel_senders;
         self.channel_receivers = Some(channel_receivers);
     }
+}
+
+type ChannelReceivers = Vec<tokio::sync::Mutex<mpsc::Receiver<Vec<u8>>>>;
+
+fn new_channels(policy: &Policy) -> (Vec<mpsc::Sender<Vec<u8>>>, ChannelReceivers) {
+    let mut channel_senders = vec![];
+    let mut channel_receivers = vec![];
+    for _ in 0..policy.participants.len() {
+        // TODO buffer size?
+        let (sender, receiver) = mpsc::channel(10);
+        channel_senders.push(sender);
+        channel_receivers.push(tokio::sync::Mutex::new(receiver));
+    }
+    (channel_senders, channel_receivers)
 }
 fn record_span_computation_id(span: &Option<Span>, computation_id: &Uuid) {
     if let Some(span) = &span {
